@@ -3,6 +3,8 @@ package engines
 import (
 	"encoding/json"
 	"fmt"
+	"math"
+	"os"
 
 	"verif/harness/internal/scen"
 )
@@ -83,6 +85,7 @@ func runC01(c *Cfg) {
 			}
 		}
 	})
+	hugeBudgetCases(c, "C01")
 	r.Exhaustive = true
 	r.Note(fmt.Sprintf("standalone product enumerated completely: %d cases (11 node kinds x budgets 1..8 x first-success index 1..N+1 x fallback x prep x post)", len(cases)))
 	// 2. nodes embedded in generated flows, with one run-ending failure injected at a random on-path position
@@ -106,6 +109,31 @@ func runC01(c *Cfg) {
 			r.Sample("embedded", map[string]any{"scenario": sc, "events_run0": outs[0].Events})
 		}
 	})
+}
+
+// hugeBudgetCases: "retry until it works" budgets (2^40, MaxInt) with an early success: budgets are counts, not sizes.
+func hugeBudgetCases(c *Cfg, prop string) {
+	if c.Shard != 0 {
+		return
+	}
+	for kind := 0; kind < scen.NumScriptedKinds; kind++ {
+		if !scen.KindHasRetry(kind) {
+			continue
+		}
+		for _, n := range []int{1 << 40, math.MaxInt} {
+			for k := 1; k <= 3; k++ {
+				ns := scen.NodeSpec{Kind: kind, N: n, HasFB: k%2 == 0, Visits: []scen.Visit{{FirstOK: k, Post: "go"}}}
+				sc := &scen.Scenario{Nodes: []scen.NodeSpec{ns}, Root: 0, Runs: 1}
+				logCase(c, ScenCase{"huge-budget", sc}) // a process-fatal allocation failure would otherwise leave no trace
+				judgeFor(c, prop, "huge-budget", sc)
+				c.Rep.Count("huge_budget.cases", 1)
+				c.Rep.Nontrivial(fmt.Sprintf("huge %d %d %d", kind, n, k))
+			}
+		}
+	}
+	if c.CurFile != "" {
+		_ = os.Remove(c.CurFile)
+	}
 }
 
 // failSomewhere turns one on-path (node, visit) of the first run into a run-ending failure.
@@ -226,6 +254,56 @@ func runC02(c *Cfg) {
 			r.Nontrivial("dl:" + scenSig(dl[i]))
 			break
 		}
+	})
+	hugeBudgetCases(c, "C02")
+	// flows with a retry budget of their own around retrying, always-failing nodes: every activation of the inner
+	// node gets its own full budget (attempt counters are per run of a node)
+	var fr []*scen.Scenario
+	for kind := 0; kind < scen.NumScriptedKinds; kind++ {
+		if !scen.KindHasRetry(kind) {
+			continue
+		}
+		for fb := 2; fb <= 3; fb++ {
+			for nb := 1; nb <= 3; nb++ {
+				vs := make([]scen.Visit, 4)
+				for i := range vs {
+					vs[i] = scen.Visit{FirstOK: nb + 1, FBErr: true, Post: "go"}
+				}
+				fr = append(fr, &scen.Scenario{Runs: 1, Root: 1, Nodes: []scen.NodeSpec{
+					{Kind: kind, N: nb, HasFB: (kind+fb)%2 == 0, Visits: vs},
+					{Kind: scen.KFlow, N: 1, Flow: &scen.FlowSpec{Start: 0, Retries: fb}}}})
+			}
+		}
+	}
+	parallel(c, len(fr), func(i int) {
+		outs, mrs := judgeFor(c, "C02", "flow-with-retries", fr[i])
+		if !scen.FullTraceEqual(&mrs[0], &outs[0]) {
+			// the flow is itself a node with a retry budget: its exec (one pass over its path) is attempted min(k, N) times
+			r.Violate("C02", "C02:flow-attempts", fmt.Sprintf("a flow with retry budget %d around an always-failing node: observed callbacks %v, a node with that budget is attempted exactly %d times: %v", fr[i].Nodes[1].Flow.Retries, keysOf(outs[0].Events), fr[i].Nodes[1].Flow.Retries, mrs[0].Keys), ScenCase{"flow-with-retries", fr[i]})
+		}
+		r.Count("flow_with_retries.cases", 1)
+		r.Nontrivial("fr:" + scenSig(fr[i]))
+	})
+	// cancellation inside the LAST failing attempt, with a retry wait configured and a fallback installed: all N
+	// attempts failed, so the fallback is still owed
+	var cl []*scen.Scenario
+	for kind := 0; kind < scen.NumScriptedKinds; kind++ {
+		if !scen.KindHasRetry(kind) || !scen.KindCanFB(kind) {
+			continue
+		}
+		for nb := 1; nb <= 3; nb++ {
+			for _, w := range []int{0, 1} {
+				for _, ik := range []string{"cancel", "deadline"} {
+					ns := scen.NodeSpec{Kind: kind, N: nb, HasFB: true, WaitMs: w, Visits: []scen.Visit{{FirstOK: nb + 1, Post: "go"}}}
+					cl = append(cl, &scen.Scenario{Nodes: []scen.NodeSpec{ns}, Root: 0, Runs: 1, Inject: scen.Inject{Kind: ik, At: nb}}) // ordinal nb = the last exec attempt
+				}
+			}
+		}
+	}
+	parallel(c, len(cl), func(i int) {
+		judgeFor(c, "C02", "cancel-in-last-attempt", cl[i])
+		r.Count("cancel_in_last_attempt.cases", 1)
+		r.Nontrivial("cl:" + scenSig(cl[i]))
 	})
 	runC02Batch(c)
 }
